@@ -210,11 +210,11 @@ where for<'a> &'a R: EucRingOps<R> {
                     let mut fb = true;
                     for j in 0..c2.min(3) {
                         let v = SpVec::<R>::unit(c2, j);
-                        fb &= guarded(|| tr.forward(&v) == &p * &v).unwrap_or(false);
+                        fb &= guarded(|| tr.forward(&v).to_dense() == (&p * &v).to_dense()).unwrap_or(false);
                     }
                     for j in 0..(rank + tors.len()).min(3) {
                         let v = SpVec::<R>::unit(rank + tors.len(), j);
-                        fb &= guarded(|| tr.backward(&v) == &q * &v).unwrap_or(false);
+                        fb &= guarded(|| tr.backward(&v).to_dense() == (&q * &v).to_dense()).unwrap_or(false);
                     }
                     (
                         format!("R={} T={} F={} B={}", rank, show_tors(&tors), show_sp(&p), show_sp(&q)),
@@ -278,7 +278,7 @@ where for<'a> &'a R: EucRingOps<R> {
                 let z = hi.gen(j);
                 // generators are cycles; their coordinates are the standard basis
                 cyc &= c.d(i, &z).is_zero();
-                vec_ok &= hi.vectorize(&z) == SpVec::unit(dim, j);
+                vec_ok &= hi.vectorize(&z).to_dense() == SpVec::<R>::unit(dim, j).to_dense();
                 match lc_to_vec(&z, n) {
                     Some(v) => gens.push_str(&show_vec(&v)),
                     None => gens.push_str("BAD-GEN"),
@@ -451,7 +451,7 @@ fn units(f: Fam) -> Vec<G> {
         Fam::Gauss => vec![G(vec![bi(1), bi(0)]), G(vec![bi(-1), bi(0)]), G(vec![bi(0), bi(1)]), G(vec![bi(0), bi(-1)])],
         Fam::Eisen => vec![
             G(vec![bi(1), bi(0)]), G(vec![bi(-1), bi(0)]), G(vec![bi(0), bi(1)]), G(vec![bi(0), bi(-1)]),
-            G(vec![bi(1), bi(1)]), G(vec![bi(-1), bi(-1)]),
+            G(vec![bi(1), bi(-1)]), G(vec![bi(-1), bi(1)]),
         ],
         Fam::Poly => vec![gint(f, 1), gint(f, -1)],
     }
@@ -533,7 +533,7 @@ fn chain(r: &mut Rng, f: Fam, len: usize) -> Vec<G> {
             },
             Fam::Eisen => match r.below(10) {
                 0..=4 => r.pick(&units(f)).clone(),
-                5 => G(vec![bi(1), bi(-1)]),  // 1 - w (norm 3)
+                5 => G(vec![bi(1), bi(1)]),   // 1 + w (norm 3)
                 6 => G(vec![bi(2), bi(0)]),   // 2 (inert)
                 7 => G(vec![bi(3), bi(1)]),   // norm 13
                 8 => G(vec![bi(2), bi(1)]),   // norm 7
